@@ -159,7 +159,12 @@ func raceWorker() {
 		outcomes = map[string]bool{}
 	)
 	out.Sample = map[string]string{}
-	cases := concCases(false)
+	var cases []concCase
+	for _, c := range concCases(false) {
+		if !c.Timer { // the timer step needs the scheduler
+			cases = append(cases, c)
+		}
+	}
 	for round := 0; round < rounds && !out.Capped; round++ {
 		for _, c := range cases {
 			if time.Now().After(deadline) {
